@@ -134,6 +134,21 @@ PROPS["C04"] = dict(
                   "strconv.FormatFloat 'f' -1 and big.Rat.Float64/Float32 (Go standard library) provide the nearest float and its shortest text for the CheckedAs oracle"],
     assumptions=["amd64"],
 )
+PROPS["C09"] = dict(
+    n_quick=30000, n_thorough=2000000, shards=8, coq_dirs=["C09"],
+    rule="cases: (40%) random ASTs of depth <= 5 over all 14 binary operators, the three unary operators before literals and before "
+         "parenthesised expressions, calls of two functions with 0-2 arguments, redundant parentheses, printed with exactly the "
+         "parentheses precedence/associativity demand and random whitespace, evaluated by an eval.Evaluator with SYMBOLIC operators so "
+         "that the returned value is the parse tree, compared with the conventional tree; (30%) arbitrary strings of length 0-13 over an "
+         "operator-heavy alphabet through the same symbolic evaluator; (20%) numeric ASTs on the real fixed (D4) and float64 evaluators "
+         "against a reference evaluation of the AST with the library's own operator functions, two layouts, reused vs fresh evaluator, "
+         "both divide-by-zero modes; (10%) arbitrary byte strings on the real evaluators under recover. non-trivial = printed AST or value "
+         "case; distinct = distinct case text",
+    trivial_class=r"(junk|rob|^bad$|^exn$)",
+    trusted_base=["symbolic operators make Evaluate return the parse tree (no source hook)",
+                  "the arithmetic of the fixed/float operator functions is taken from the library itself (C03 covers the fixed-point part)"],
+    assumptions=["operands of generated ASTs contain no operator character and do not end in <digit>e"],
+)
 
 # properties not (yet) claimed, with the reason; an entry is dropped automatically once the property is in PROPS
 NOT_APPLICABLE = {
@@ -142,6 +157,17 @@ NOT_APPLICABLE = {
 }
 
 MANIFEST_TEXT = {
+    "C09": dict(
+        level_text="Proof: (1) for every input byte string and every operator/function table the byte-level model of the parser and of the "
+                   "evaluation of the tree it builds never reaches a Go panic (no unchecked pop, no missing operator applied); (2) at token "
+                   "level, for every well-formed expression the two-stack reduction yields exactly the conventional tree: precedence, left "
+                   "associativity, a unary operator binding its operand only -- Coq theorems. The byte-level model is compared with the real "
+                   "evaluator (symbolic operators, so the value is the parse tree) on printed ASTs and arbitrary strings; values of the real "
+                   "fixed/float evaluators are compared with a reference evaluation using the library's own operators; whitespace, reuse "
+                   "and divide-by-zero modes are sampled.",
+        level_note="Trusted: Coq kernel, extraction, drivers, harness; bounded time is observed by the harness watchdog (fuel-unreachability "
+                   "not proved); the byte-to-token simulation is not proved (tied by K); float/fixed operator arithmetic is the library's.",
+        technique="Coq proof (invariant over the parser's state machine; token-level refinement) on a hand-written Gallina model + differential correspondence check"),
     "C04": dict(
         level_text="Proof: decimal printing/parsing of every integer below 10^45 are inverse (the FormatInt/ParseInt, big.Int String/SetString "
                    "core of String and FromString), Comma only adds separators (removing commas gives the digits back, any length), Unquote "
